@@ -116,6 +116,7 @@ type bpath struct {
 }
 
 type boundsEnv struct {
+	assume []lin // facts under which eval may look through signed→unsigned conversions (nil: not allowed)
 	c      *Ctx
 	fn     *ssa.Function
 	cyc    map[*ssa.BasicBlock]bool
@@ -224,6 +225,14 @@ func (e *boundsEnv) eval(v ssa.Value, p *bpath, d int) lin {
 			db := x.Type().Underlying().(*types.Basic)
 			if intBits(db) >= intBits(sb) && (isUnsignedT(x.X.Type()) && intBits(db) > intBits(sb) || isUnsignedT(x.X.Type()) == isUnsignedT(x.Type())) {
 				return e.eval(x.X, p, d+1)
+			}
+			// signed → unsigned of at least the same width keeps the value when the operand is known to be
+			// non-negative from the branch conditions already taken on this path (second pass, see ProveBounds)
+			if intBits(db) >= intBits(sb) && !isUnsignedT(x.X.Type()) && isUnsignedT(x.Type()) && e.assume != nil {
+				inner := e.eval(x.X, p, d+1)
+				if e.proves(inner, e.assume) {
+					return inner
+				}
 			}
 		}
 	case *ssa.ChangeType:
@@ -514,6 +523,16 @@ func (e *boundsEnv) ProveBounds(in ssa.Instruction, need int64) string {
 				return false
 			}
 			facts := e.factsOn(p)
+			// second pass: with the first-pass facts known, conversions of provably non-negative values to an
+			// unsigned type are transparent (a comparison made in uint64 "so that it cannot overflow")
+			e.assume = facts
+			if f2 := e.factsOn(p); len(f2) > 0 {
+				facts = append(append([]lin{}, facts...), f2...)
+				if g2, _, ok2 := e.goalsFor(in, need, p); ok2 && len(g2) == len(goals) {
+					goals = g2
+				}
+			}
+			e.assume = nil
 			for gi, g := range goals {
 				if !e.proves(g, facts) {
 					fail = "cannot show " + names[gi] + " (need " + g.String() + " >= 0) on a path"
